@@ -399,10 +399,13 @@ class ProgGen:
                 w = rng.choice(WIDTHS)
                 rname = "r%d" % j if rng.random() < 0.7 else "reg_%s%d" % ("y" * rng.randint(1, 30), j)
                 d = rng.getrandbits(min(w, 20))
-                regs.append((rname, w, d))
+                dt = str(d) if rng.random() < 0.6 else "0x%x" % d
+                if rng.random() < 0.2 and w < 127:
+                    dt = rng.choice(["-1", "~0", str((1 << w) + d), "-(%d)" % (d + 1)])   # truncated to the register's width
+                regs.append((rname, w, dt))
                 self.env.append(("%s_%s" % (lo, rname), w, False))
             banks.append((li, lo, regs))
-            body = " ".join("%s : %d = %s;" % (r, w, (str(d) if rng.random() < 0.6 else "0x%x" % d)) for r, w, d in regs)
+            body = " ".join("%s : %d = %s;" % (r, w, dt) for r, w, dt in regs)
             self.stmts.append("register %s%s { %s }" % (li, lo, body))
         # tasks whose order is random
         tasks = [("pc",)]
@@ -449,6 +452,9 @@ class ProgGen:
         # Stat
         if k["halt_at"] is not None:
             self.stmts.append("Stat = [ P_cyc == %d : STAT_HLT; 1 : STAT_AOK; ];" % k["halt_at"])
+        elif rng.random() < 0.3:
+            # a status that turns non-OK now and then (the step engine keeps stepping)
+            self.stmts.append("Stat = [ (P_cyc)[0..2] == %d : %s; 1 : STAT_AOK; ];" % (rng.randint(0, 3), rng.choice(["STAT_HLT", "STAT_INS", "STAT_ADR", "STAT_BUB", "STAT_PIP", "7"])))
         else:
             self.stmts.append("Stat = STAT_AOK;")
         body = list(self.stmts)
